@@ -138,6 +138,10 @@ class BitStringBitReader(BitReader):
             return self.bit_stream.read(fmt_string)
         except self.bitstring_Error as e:
             raise BitReadError(e.msg)
+        except ValueError as e:
+            # e.g. a negative number of bits when a declared section length
+            # is shorter than the fixed part of the section
+            raise BitReadError(str(e))
 
     def read_bytes(self, nbytes):
         return self._bit_stream_read('bytes:{}'.format(nbytes))
